@@ -8,7 +8,7 @@ import (
 )
 
 func init() {
-	allFacts = append(allFacts, factCbConds, factCaps, factSerial, factGuards, factStackErrAssert, factMonitorSubmits)
+	allFacts = append(allFacts, factCbConds, factCaps, factSerial, factGuards, factStackErrAssert, factMonitorSubmits, factVerifyBeforeStart)
 }
 
 // boolExpr translates a Go boolean expression over a fixed vocabulary into Lean Bool syntax.
@@ -443,4 +443,38 @@ func factMonitorSubmits() {
 		miss("F6s", "dials.go: func submitEvent")
 	}
 	emit("/-- F6s: event submissions on the monitor goroutine (monitor + updateSourceValue): through submitEvent /\nthrough submitEventBlocking or a bare send on cbch; and submitEvent's send sits in a select with a default case -/\ndef monitorSubmits : Nat := %d\ndef monitorBlockingSubmits : Nat := %d\ndef submitEventHasDefault : Bool := %v\n\n", nonBlocking, blocking+bare, hasDefault)
+}
+
+// factVerifyBeforeStart (F5o): in Params.Config the initial verification (the `if vf, ok := newValue.(VerifiedConfig); ...`
+// statement, whose failure makes Config return an error) comes BEFORE the statement that starts the callback and monitor
+// goroutines.  The runtime model's init either fails or yields a state with both goroutines; a refused initial stack
+// leaves nothing running.
+func factVerifyBeforeStart() {
+	f := parse("dials.go")
+	verifyAt, startAt := -1, -1
+	if fd := funcDecl(f, "Config"); fd != nil && fd.Recv != nil {
+		for i, st := range fd.Body.List {
+			is, ok := st.(*ast.IfStmt)
+			if !ok {
+				continue
+			}
+			if is.Init != nil && strings.Contains(src(is.Init), "(VerifiedConfig)") && verifyAt < 0 {
+				verifyAt = i
+			}
+			hasGo := false
+			ast.Inspect(is.Body, func(n ast.Node) bool {
+				if _, ok := n.(*ast.GoStmt); ok {
+					hasGo = true
+				}
+				return true
+			})
+			if hasGo && startAt < 0 {
+				startAt = i
+			}
+		}
+	}
+	if verifyAt < 0 || startAt < 0 {
+		miss("F5o", "dials.go Params.Config: the initial-verification `if` and the `if someoneWatching { go ... }` statement, both at the top level of the body")
+	}
+	emit("/-- F5o: Params.Config verifies the initial stack before it starts the callback and monitor goroutines -/\ndef initialVerifyBeforeGoroutines : Bool := %v\n\n", verifyAt >= 0 && startAt >= 0 && verifyAt < startAt)
 }
